@@ -207,8 +207,21 @@ def run_corpus(chk, tier):
     for (origin, text, structs, table), (binary, log) in zip(metas, bins):
         if binary is None:
             stats.setdefault("driver_compile_failed", []).append(origin)
-            if origin.startswith("corpus/"):
-                raise common.InfraError("driver for %s does not compile:\n%s" % (origin, log[-3000:]))
+            hname = "td_%s.h" % re.sub(r"[^A-Za-z0-9_]", "_", origin[:-4])
+            probe, _plog = cppbuild.compile_one(cppbuild.CHECK_PRELUDE + '#include "%s"\nint main() { return 0; }\n' % hname,
+                                                name="c06td_probe", extra=["-I" + scratch], compiler="clang++", opt="-O0")
+            if probe is None:
+                if origin.startswith("corpus/"):
+                    raise common.InfraError("driver for %s does not compile (nor does the bare header):\n%s" % (
+                        origin, log[-3000:]))
+                continue
+            chk.violation("input", {
+                "part": "TXT", "origin": origin, "emb": text, "kind_of_failure": "text-io-does-not-compile",
+                "observed": ["the generated header compiles, WriteToString / UpdateFromText of its structs does not"] +
+                            [ln for ln in log.split("\n") if "error" in ln][:6],
+                "compiler_log_tail": log[-3000:],
+                "expected": "for every accepted module WriteToString and UpdateFromText of every struct compile and "
+                            "round-trip"})
             continue
         lines = []
         for s_name, casts in structs:
